@@ -245,7 +245,9 @@ theorem startLookup_invW {s : St} (h : InvW s) {i : Nat} (hi : i < s.nrec) {r : 
   unfold startLookup
   split
   · next hp => exact enqueue_invW h hi hw hp
-  · exact submitLookup_invW h hi hw
+  · split
+    · exact h
+    · exact submitLookup_invW h hi hw
 
 /-- nothing in `startLookup` touches user names, the number of records or the clock -/
 theorem startLookup_frame (s : St) (i : Nat) (r : Req) :
@@ -257,10 +259,12 @@ theorem startLookup_frame (s : St) (i : Nat) (r : Req) :
     intro j; simp only [setRec_recs]; split
     · next e => subst e; rfl
     · rfl
-  · refine ⟨rfl, rfl, rfl, ?_⟩
-    intro j; simp only [setRec_recs]; split
-    · next e => subst e; rfl
-    · rfl
+  · split
+    · exact ⟨rfl, rfl, rfl, fun _ => rfl⟩
+    · refine ⟨rfl, rfl, rfl, ?_⟩
+      intro j; simp only [setRec_recs]; split
+      · next e => subst e; rfl
+      · rfl
 
 theorem tryAuth_invW (cfg : Cfg) {s : St} (h : InvW s) {i : Nat} (hi : i < s.nrec) {r : Req} (hw : WaiterOf (s.recs i) r) :
     InvW (tryAuth cfg s i r).1 := by
@@ -298,7 +302,9 @@ theorem startLookup_outOk (s : St) (i : Nat) (r : Req) (hw : WaiterOf (s.recs i)
   intro o ho
   split at ho
   · simp only [List.mem_singleton] at ho; subst ho; trivial
-  · simp only [List.mem_singleton] at ho; subst ho; exact hw
+  · split at ho
+    · simp only [List.mem_singleton] at ho; subst ho; trivial
+    · simp only [List.mem_singleton] at ho; subst ho; exact hw
 
 theorem tryAuth_outOk (cfg : Cfg) (s : St) (i : Nat) (r : Req) (hw : WaiterOf (s.recs i) r) : ∀ o ∈ (tryAuth cfg s i r).2, OutOk o := by
   unfold tryAuth
